@@ -114,6 +114,25 @@ def write_structure(calc, filename, cell, info, author=False):
         with open(filename, "w") as f:
             f.write("\n".join(lines) + "\n")
         return
+    if calc == "elk" and author:
+        # the user's own elk.in: lattice vectors given with the `scale` block of the format (phonopy's writer never
+        # writes them, its reader must honour them), species blocks in the user's order of first appearance
+        syms = [re.sub(r"\d+$", "", str(x)) for x in cell.symbols]
+        species = list(dict.fromkeys(syms))
+        # (only the global `scale`: how `scale` combines with `scale1..3` is Elk's business and cannot be checked offline)
+        sc_all = 1.25
+        lat = np.array(cell.cell, dtype=float) / sc_all
+        lines = ["scale", " %.16f" % sc_all, "", "avec"]
+        lines += [" %21.16f %21.16f %21.16f" % tuple(v) for v in lat]
+        lines += ["", "atoms", " %d" % len(species)]
+        pos = np.array(cell.scaled_positions)
+        for sp in species:
+            idx = [i for i, x in enumerate(syms) if x == sp]
+            lines += [" '%s.in'" % sp, " %d" % len(idx)]
+            lines += [" %20.16f %20.16f %20.16f  0.0 0.0 0.0" % tuple(pos[i]) for i in idx]
+        with open(filename, "w") as f:
+            f.write("\n".join(lines) + "\n")
+        return
     if calc == "vasp" and author:
         # the user's own POSCAR keeps the user's atom order (VASP 5 accepts a species more than once); phonopy's writer would
         # group the atoms by species, which is exactly what must not be assumed of user input
